@@ -73,7 +73,7 @@ PROPS = {
     "C05": dict(SHIELD, lean=["Shentu.Props.C05", "Shentu.Props.C05H", "Shentu.Props.ShieldTie"], engines=SHIELD["engines"] + [SHIELDPARAMS]),
     "C06": dict(SHIELD, lean=["Shentu.Props.C06", "Shentu.Props.ShieldTie"], assumptions=SHIELD["assumptions"] + [
         "the converse (a funded purchase meeting the conditions is accepted) is proved for purchases whose fee or stake does not truncate to zero (amount x rate >= 1 unit); with the default minimum purchase of 50 CTK this always holds; below it the module answers ErrNoShield"]),
-    "C07": dict(SHIELD, lean=["Shentu.Props.C07", "Shentu.Props.ShieldTie"], engines=SHIELD["engines"] + [SHIELDPARAMS]),
+    "C07": dict(SHIELD, lean=["Shentu.Props.C07", "Shentu.Props.C07P", "Shentu.Props.ShieldTie"], engines=SHIELD["engines"] + [SHIELDPARAMS]),
     "C08": {
         "lean": ["Shentu.Props.C08", "Shentu.Props.C04b", "Shentu.Props.C04c", "Shentu.Props.C04r", "Shentu.Props.C01m"],
         "engines": [chain("shield", 96, 960, ops=240, tops=400), chain("oracle", 48, 480, ops=120), chain("gov", 48, 480, ops=120), chain("staking", 32, 320, ops=150), chain("bankvm", 32, 320, ops=100), MINT, REIMB, ORACLEPARAMS, GOVPARAMS, SHIELDPARAMS],
